@@ -236,13 +236,18 @@ def run(ctx, prop, focus, n_hist, n_stall, stall_programs=1, n_istall=0):
     for pt in first:
         if ctx.time_left() < 5:
             break
-        for rep in range(10):
+        for rep in range(12):
             # busy programs: two enqueuer threads keep submitting while a thread sits inside the window
-            if rep % 3 == 0:
+            if rep % 2 == 0 and pt["role"] == "controller" and rep % 4 == 0:
+                prog = poolmon.gen_program_lifecycle_call_under_burst(rng)
+            elif rep % 2 == 0:
                 prog = poolmon.gen_program_start_under_load(rng)
             else:
                 prog = poolmon.gen_program(rng, focus, busy=rep % 4 != 3)
             plan = dict(pt, k=rng.choice([1, 1, 2, 3, 5]), budget=rng.choice([150, 400, 1000]), cap=0.05)
+            if rep % 2 == 0:
+                # the thread stays inside the window for the whole cap: the other threads' updates land inside it
+                plan = dict(pt, k=1 if rep % 4 == 0 else rng.choice([1, 2, 3]), budget=10 ** 9, cap=0.05)
             hits0 = inj.hits
             run_one(ctx, prop, inj, prog, "istall", rng.randrange(1 << 30), plan=plan)
             if inj.hits > hits0:
